@@ -270,7 +270,7 @@ def run_uc_pow(acc, nt):
                 u = _UC({k: int(v) for k, v in mu.items()})
                 acc.ev(2)
                 acc.nt(("pow-rational", key_of(mu), str(a)))
-                case = {"layer": "container", "nt": "default container, integer exponents", "u": jm(mu), "a": str(a), "op": "(u**a)**3 vs u**(3a); u**a * u**a * u**a * u**(-3a)"}
+                case = {"layer": "container", "nt": "float", "container": "default container, integer exponents", "u": jm(mu), "a": str(a), "op": "(u**a)**3 vs u**(3a); u**a * u**a * u**a * u**(-3a)"}
                 r1, r2 = (u**a) ** 3, u ** (a * 3)
                 if r1 != r2 or hash(r1) != hash(r2) or dict(r1) != dict(r2):
                     acc.violation(["container", "pow", "rational-power-law-inexact", nt], case, {k: str(v) for k, v in dict(r2).items()}, {k: str(v) for k, v in dict(r1).items()})
